@@ -7,6 +7,7 @@ TARGETS = ['selfies/bond_constraints.py::get_preset_constraints',
            'selfies/bond_constraints.py::get_bonding_capacity',
            'selfies/grammar_rules.py::process_atom_symbol',
            'selfies/grammar_rules.py::_process_atom_selfies_no_cache']
+ASSUMPTIONS = ["atom-symbol contracts (process_atom_symbol, _process_atom_selfies_no_cache, smiles_to_atom, tokenize_smiles) assume ASCII input of at most 4000 characters: Unicode digits matched by \\\\d and CPython's 4300-digit int() limit are recorded known findings", "regex match groups are modelled as SOME decomposition of the string into the pattern's top-level pieces (sound over-approximation of the greedy choice); functools.partial(Atom, **kw) is modelled as a heap object whose call constructs a fresh Atom", 'constraint-table values of type bool (True/False pass isinstance(value, int)) are not modelled; keys of the table passed to set_semantic_constraints are assumed to be str', 'lru_cache is modelled by a per-function memo flag (stale after a write of _current_constraints, clean after cache_clear()); the dict iteration order is abstract (ghost key vector enumerating exactly the present keys)']
 EXPLANATION = (
     "BOUNDED stand-in (not counted as proved) plus every deductive clause listed in coverage.clauses: enumerated "
     "histories of public API calls (constraint updates valid and invalid, caller-side mutation of every object the "
